@@ -133,8 +133,52 @@ def printer_model(ctx, prog):
                 closes.append(lts)
             elif lit is not None:
                 toks.append((b, lit))
-        model[name] = dict(passed=passed, opens=opens, closes=closes, toks=toks, blocks=blks, target=tgt)
+        model[name] = dict(passed=passed, opens=opens, closes=closes, toks=toks, blocks=blks, target=tgt, fn=f, S=S)
+    # a table-driven printer (every arm only fills in (precedence, operands, symbol) and one shared tail prints them): the per-arm regions above hold no
+    # printing at all; read each variant on the body specialised to it instead
+    if all(not model.get(n, {}).get("passed") for n in ("UnOp", "BinOp", "And", "Or")):
+        from ..spec import specialise
+        dexpr = S.val(t["discr"])
+        for v, name in vs.items():
+            g = specialise(prog, f, dexpr, v)
+            Sg = Sym(prog, g)
+            domg = cfg.dominators(g)
+            live = {bl["id"] for bl in g.blocks if not bl["cleanup"] and bl["id"] in domg}
+            rec = sorted([(b, tt) for b, tt in g.calls() if b in live and cname(prog, tt) == f.name], key=lambda x: len(domg[x[0]]))
+            passed = [Sg.val(tt["args"][2]) for b, tt in rec]
+            opens, closes, toks = [], [], []
+            for b, tt in sorted(g.calls(), key=lambda x: len(domg.get(x[0], ()))):
+                if b not in live or not (tt.get("callee") or "").endswith("Formatter::<'a>::write_str"):
+                    continue
+                m = re.search(r"s:'(.*)'$", Sg.val(tt["args"][1]))
+                lit = m.group(1) if m else None
+                lts = _lt_parent_facts(Sg, b)
+                if lit == "(":
+                    opens.append(lts)
+                elif lit == ")":
+                    closes.append(lts)
+                elif lit is not None:
+                    toks.append((b, lit))
+            model[name] = dict(passed=passed, opens=opens, closes=closes, toks=toks, blocks=live, target=None, fn=g, S=Sg)
     return f, S, model, prec_tab, vs
+
+
+def _lt_parent_facts(S, b):
+    """`X < parent_prec` facts at block b, normalised to '(X Lt p3)' over the spellings X < p, p > X, !(p <= X), !(X >= p)"""
+    from ..sym import split_bin as _sb
+    out = []
+    for (e, truth, g) in S.bool_facts_at(b):
+        if not isinstance(truth, bool):
+            continue
+        sb_ = _sb(e)
+        if not sb_:
+            continue
+        a_, op_, b_ = sb_
+        if b_ == "p3" and ((op_ == "Lt" and truth) or (op_ == "Ge" and not truth)):
+            out.append("(%s Lt p3)" % a_)
+        elif a_ == "p3" and ((op_ == "Gt" and truth) or (op_ == "Le" and not truth)):
+            out.append("(%s Lt p3)" % b_)
+    return out
 
 
 def prec_value(expr, prec_tab, op, _depth=0):
@@ -226,8 +270,8 @@ def run_c19(ctx):
             return
     bin_vs = tables.enum_variants(prog, "msi", BINOP)
     un_vs = tables.enum_variants(prog, "msi", UNOP)
-    btok = variant_tokens(prog, f, S, model["BinOp"]["blocks"], r"discr\(\*p1@BinOp\.0\)")
-    utok = variant_tokens(prog, f, S, model["UnOp"]["blocks"], r"discr\(\*p1@UnOp\.0\)")
+    btok = variant_tokens(prog, model["BinOp"]["fn"], model["BinOp"]["S"], model["BinOp"]["blocks"], r"discr\(\*p1@BinOp\.0\)")
+    utok = variant_tokens(prog, model["UnOp"]["fn"], model["UnOp"]["S"], model["UnOp"]["blocks"], r"discr\(\*p1@UnOp\.0\)")
     tok = {}
     for d, name in bin_vs.items():
         tok[name] = (btok.get(d) or "").strip()
